@@ -6,8 +6,11 @@ import (
 	"context"
 	"fmt"
 	"net"
+	"reflect"
 	"sort"
 	"strings"
+	"sync"
+	"unsafe"
 
 	nodenet "github.com/hashicorp/nodeenrollment/net"
 
@@ -57,7 +60,7 @@ func installMuxHooks(r *kernel.Run) *muxModels {
 		}
 		return 0
 	}
-	r.OnClose(func() { nodenet.SimPoint = nil; nodenet.SimSelect = nil })
+	r.OnEnd(func() { nodenet.SimPoint = nil; nodenet.SimSelect = nil })
 	prevArrive := r.Sched.OnArrive
 	r.Sched.OnArrive = func(p *kernel.Parked) {
 		if prevArrive != nil {
@@ -83,7 +86,7 @@ func installMuxHooks(r *kernel.Run) *muxModels {
 		case "ingress.send.post":
 			x.blockedSenders--
 		}
-		if x.readers < 0 || x.blockedSenders < 0 {
+		if x.blockedSenders < 0 {
 			r.HarnessErr("mux model negative: %+v at %s", *x, p.Point)
 		}
 	}
@@ -96,16 +99,36 @@ func installMuxHooks(r *kernel.Run) *muxModels {
 		if !ok {
 			return true
 		}
-		x := get(l)
+		// Enabled-ness of a goroutine about to take the listener's lock is decided by probing the real RWMutex
+		// (every goroutine is parked while the driver probes), not by the hook-derived model: a code change can move a
+		// lock operation away from its hook, and the model would then misrepresent who holds the lock.
+		mu := muxMutex(r, l)
 		switch p.Point {
 		case "ingress.rlock.pre":
-			return !x.writer
+			if mu.TryRLock() {
+				mu.RUnlock()
+				return true
+			}
+			return false
 		case "close.lock.pre":
-			return x.readers == 0 && !x.writer
+			if mu.TryLock() {
+				mu.Unlock()
+				return true
+			}
+			return false
 		}
 		return true
 	}
 	return mm
+}
+
+// muxMutex reaches the listener's private *sync.RWMutex (field closedMutex) for TryLock probing.
+func muxMutex(r *kernel.Run, l *nodenet.MultiplexingListener) *sync.RWMutex {
+	f := reflect.ValueOf(l).Elem().FieldByName("closedMutex")
+	if !f.IsValid() || f.Kind() != reflect.Ptr || f.Type().Elem() != reflect.TypeOf(sync.RWMutex{}) || f.IsNil() {
+		r.HarnessErr("MultiplexingListener.closedMutex (*sync.RWMutex) not found: the lock-aware scheduler cannot probe the lock")
+	}
+	return (*sync.RWMutex)(unsafe.Pointer(f.Pointer()))
 }
 
 // released must be called by the engine when a goroutine parked at send.pre is released.
